@@ -1,0 +1,104 @@
+//go:build verif
+
+// Package verifbridge (build tag verif only) lets the verification harness, which lives outside this module's
+// internal tree, push values through the plugin wire encoding: native -> proto message -> proto.Marshal bytes ->
+// proto.Unmarshal -> native, i.e. exactly what travels between octosql and a plugin process.
+package verifbridge
+
+import (
+	"google.golang.org/protobuf/proto"
+
+	"github.com/cube2222/octosql/execution"
+	"github.com/cube2222/octosql/octosql"
+	"github.com/cube2222/octosql/physical"
+	"github.com/cube2222/octosql/plugins/internal/plugins"
+)
+
+func RoundTripValue(v octosql.Value) (octosql.Value, error) {
+	data, err := proto.Marshal(plugins.NativeValueToProto(v))
+	if err != nil {
+		return octosql.Value{}, err
+	}
+	var out plugins.Value
+	if err := proto.Unmarshal(data, &out); err != nil {
+		return octosql.Value{}, err
+	}
+	return out.ToNativeValue(), nil
+}
+
+func RoundTripType(t octosql.Type) (octosql.Type, error) {
+	data, err := proto.Marshal(plugins.NativeTypeToProto(t))
+	if err != nil {
+		return octosql.Type{}, err
+	}
+	var out plugins.Type
+	if err := proto.Unmarshal(data, &out); err != nil {
+		return octosql.Type{}, err
+	}
+	return out.ToNativeType(), nil
+}
+
+func RoundTripSchema(s physical.Schema) (physical.Schema, error) {
+	data, err := proto.Marshal(plugins.NativeSchemaToProto(s))
+	if err != nil {
+		return physical.Schema{}, err
+	}
+	var out plugins.Schema
+	if err := proto.Unmarshal(data, &out); err != nil {
+		return physical.Schema{}, err
+	}
+	return out.ToNativeSchema(), nil
+}
+
+func RoundTripRecord(r execution.Record) (execution.Record, error) {
+	data, err := proto.Marshal(plugins.NativeRecordToProto(r))
+	if err != nil {
+		return execution.Record{}, err
+	}
+	var out plugins.Record
+	if err := proto.Unmarshal(data, &out); err != nil {
+		return execution.Record{}, err
+	}
+	return out.ToNativeRecord(), nil
+}
+
+func RoundTripMetadata(m execution.MetadataMessage) (execution.MetadataMessage, error) {
+	data, err := proto.Marshal(plugins.NativeMetadataMessageToProto(m))
+	if err != nil {
+		return execution.MetadataMessage{}, err
+	}
+	var out plugins.MetadataMessage
+	if err := proto.Unmarshal(data, &out); err != nil {
+		return execution.MetadataMessage{}, err
+	}
+	return out.ToNativeMetadataMessage(), nil
+}
+
+func RoundTripPhysicalVariableContext(c *physical.VariableContext) (*physical.VariableContext, error) {
+	data, err := proto.Marshal(plugins.NativePhysicalVariableContextToProto(c))
+	if err != nil {
+		return nil, err
+	}
+	var out plugins.PhysicalVariableContext
+	if err := proto.Unmarshal(data, &out); err != nil {
+		return nil, err
+	}
+	return out.ToNativePhysicalVariableContext(), nil
+}
+
+func RoundTripExecutionVariableContext(c *execution.VariableContext) (*execution.VariableContext, error) {
+	data, err := proto.Marshal(plugins.NativeExecutionVariableContextToProto(c))
+	if err != nil {
+		return nil, err
+	}
+	var out plugins.ExecutionVariableContext
+	if err := proto.Unmarshal(data, &out); err != nil {
+		return nil, err
+	}
+	return out.ToNativeExecutionVariableContext(), nil
+}
+
+// RepopulatePhysicalExpressionFunctions is what the plugin side applies to a predicate after json.Unmarshal.
+func RepopulatePhysicalExpressionFunctions(expr physical.Expression) (physical.Expression, bool) {
+	return plugins.RepopulatePhysicalExpressionFunctions(expr)
+}
